@@ -7,13 +7,29 @@ import io
 import json
 import sys
 
+import glob
+import os
+import shutil
+import tempfile
+
 repo, spec = sys.argv[1], json.loads(sys.argv[2])
 sys.path.insert(0, repo)
 from nsl import Compiler, LinearIR   # noqa: E402
 
+# a private copy of the library directory: a request may ask for another version of an imported library ("_lib"), which is put in
+# place before that compilation (other worker processes share the original directory)
+private = tempfile.mkdtemp(prefix="c18w", dir=os.environ.get("VERIF_SCRATCH", "/var/tmp"))
+for f in glob.glob("*.nslir"):
+    shutil.copy(f, private)
+os.chdir(private)
+
 out = []
 for src, opts in spec:
     buf = io.StringIO()
+    opts = dict(opts)
+    lib = opts.pop("_lib", None)
+    if lib is not None:
+        shutil.copyfile(f"libc_{lib}.nslir", "libc.nslir")
     try:
         with contextlib.redirect_stdout(buf), contextlib.redirect_stderr(buf):
             r = Compiler.Compiler().Compile(src, dict(opts))
@@ -35,4 +51,6 @@ for src, opts in spec:
         out.append("exit")
     except BaseException as e:  # noqa
         out.append("raise:" + type(e).__name__)
+os.chdir("/")
+shutil.rmtree(private, ignore_errors=True)
 print(json.dumps(out))
